@@ -17,7 +17,12 @@
 (*                      creates with 0o666 & ~umask, truncates                                             *)
 (*     Write            the rendered text replaces what is in the file from offset 0                       *)
 (*     CopyMode         only shutil.copy (copied resource, no line post-processor): mode of the resource   *)
-(*     SetMode          SetFileMode post-processor the CLI always appends: chmod(file_mode)                *)
+(*     RunProgram       --pp-run-program (ExternalProgramEditInPlace): an external editor that appends in   *)
+(*                      place (needs u+w for a non-root caller), saves atomically (temp file + rename: NEW   *)
+(*                      inode with the temp file's mode 0o666 & ~umask) or does nothing                       *)
+(*     SetMode          SetFileMode post-processor the CLI always appends LAST: chmod(file_mode)            *)
+(*   The file post-processors are an ordered CHAIN per file over (content, mode, inode); the order is the    *)
+(*   order of the list ArgparseRunner._build_post_processor_list_from_args builds (PPOrder).                 *)
 (*   A run that is refused stops there: files handled before stay generated, later ones are not touched.   *)
 (*   Environment between runs: Foreign(path) (a file nnvg did not write), Chmod(path, mode), Remove(path). *)
 (* TLC checks I => P at every end of a run (invariant RunEndOK) over ALL histories (the model has no run   *)
@@ -28,7 +33,9 @@ CONSTANTS GenFiles,      \* generated paths in play, subset of 1..4: 1 templated
           OtherFiles,    \* paths no run generates (subset of {5})
           Modes,         \* permission bits requested by --file-mode / left by the environment
           Variants,      \* content-changing options: 0 plain, 1 longer (serialization asserts), 2 shorter (empty-line limit 0,
-                         \* a line post-processor), 3 same length (trailing-white-space trimmer, a line post-processor)
+                         \* a line post-processor), 3 same length (trailing-white-space trimmer, a line post-processor),
+                         \* --pp-run-program: 4 editor appending in place, 7 editor replacing by rename, 8 no-op program
+          PPOrder,       \* "program_first": external program, then SetFileMode (the code); "mode_first": negative control
           ChmodGate,     \* TRUE: _handle_overwrite adds u+w,g+w before the file is opened (the code); FALSE: negative control
           CopyGate,      \* TRUE: _copy_header goes through _handle_overwrite (the code); FALSE: negative control
           Truncates,     \* TRUE: open(..., "w") truncates (the code); FALSE: negative control ("r+" style rewrite)
@@ -38,8 +45,8 @@ CONSTANTS GenFiles,      \* generated paths in play, subset of 1..4: 1 templated
           Record,        \* TRUE: keep the history for case emission
           MaxSteps       \* history length bound for emission; 0 = unbounded (exhaustive check)
 
-VARIABLES fs, pc, queue, opts, pre, status, hist, nsteps
-vars == <<fs, pc, queue, opts, pre, status, hist, nsteps>>
+VARIABLES fs, pc, queue, chain, opts, pre, status, hist, nsteps
+vars == <<fs, pc, queue, chain, opts, pre, status, hist, nsteps>>
 
 (* ------------------------------------------------------------------------------------------------------ *)
 (* 1. permission bits and directory helpers                                                                *)
@@ -95,6 +102,11 @@ AllOpts == {o \in [fm : Modes, no : BOOLEAN, omit : BOOLEAN, gs : GS, v : Varian
                ~(o.omit /\ o.gs = "always")}          \* rejected by the argument parser
 NoOpts == [fm |-> 0, no |-> FALSE, omit |-> FALSE, gs |-> "never", v |-> 0]
 Lpp(o) == o.v \in {2, 3}
+Rp(o) == IF o.v = 4 THEN "inplace" ELSE IF o.v = 7 THEN "replace" ELSE IF o.v = 8 THEN "noop" ELSE "none"
+Edits(o) == Rp(o) \in {"inplace", "replace"}          \* the program appends one unit to what the generator wrote
+(* the ordered chain of file post-processors of one file                                                    *)
+FileChain(o) == LET prog == IF Rp(o) = "none" THEN <<>> ELSE <<Rp(o)>>
+                IN IF PPOrder = "program_first" THEN prog \o <<"setmode">> ELSE <<"setmode">> \o prog
 RunOpts == IF OptsSel = "all" THEN AllOpts
            ELSE IF OptsSel = "q28" THEN {o \in AllOpts : o.fm \in {292, 420} /\ o.v = 0}
            ELSE IF OptsSel = "t56" THEN {o \in AllOpts : o.fm \in {292, 420} /\ o.v \in {0, 2}}
@@ -107,8 +119,10 @@ Order(o) == SelectSeq(<<1, 2, 3, 4>>, LAMBDA f : f \in Gen(o))     \* support ge
 
 (* model contents: homogeneous sequences, so that a torn file (tail of an older, longer content) is visible *)
 Tag(f, o) == f * 1000 + (IF Kind(f) = "type" /\ o.omit THEN 100 ELSE 0) + o.v
-FreshLen(f, o) == IF Kind(f) = "type" /\ o.omit THEN 1 ELSE IF o.v = 1 THEN 4 ELSE IF o.v = 2 THEN 2 ELSE 3
+FreshLen(f, o) == IF Kind(f) = "type" /\ o.omit THEN (IF Edits(o) THEN 2 ELSE 1)
+                  ELSE IF o.v = 1 \/ Edits(o) THEN 4 ELSE IF o.v = 2 THEN 2 ELSE 3
 FreshContent(f, o) == [i \in 1..FreshLen(f, o) |-> Tag(f, o)]
+Rendered(f, o) == IF Edits(o) THEN SubSeq(FreshContent(f, o), 1, FreshLen(f, o) - 1) ELSE FreshContent(f, o)
 Fresh(o) == [f \in Gen(o) |-> FreshContent(f, o)]
 ForeignContent(k) == IF k = "long" THEN [i \in 1..5 |-> 9001] ELSE <<9002>>
 Overlay(new, old) == new \o SubSeq(old, Len(new) + 1, Len(old))
@@ -118,11 +132,16 @@ OvwRefuses(d, f, o) == f \in DOMAIN d /\ o.no /\ Gated(f)
 StepOvw(d, f, o) == IF f \in DOMAIN d /\ Gated(f) /\ ChmodGate THEN [d EXCEPT ![f].m = Or(@, UGW)] ELSE d
 OpenDenied(d, f) == f \in DOMAIN d /\ ~Privileged /\ ~OwnerWritable(d[f].m)
 StepOpen(d, f) == IF f \in DOMAIN d THEN (IF Truncates THEN [d EXCEPT ![f].c = <<>>] ELSE d)
-                  ELSE Put(d, f, [c |-> <<>>, m |-> CreateMode])
-StepWrite(d, f, o) == [d EXCEPT ![f].c = Overlay(FreshContent(f, o), @)]
+                  ELSE Put(d, f, [c |-> <<>>, m |-> CreateMode, i |-> 0])
+StepWrite(d, f, o) == [d EXCEPT ![f].c = Overlay(Rendered(f, o), @)]
 HasCopyMode(f, o) == Kind(f) = "copy" /\ ~Lpp(o)
 StepCopyMode(d, f) == [d EXCEPT ![f].m = ResourceMode]
 StepSetMode(d, f, o) == [d EXCEPT ![f].m = o.fm]
+(* the external program as the caller's uid: appending in place needs u+w; a rename only needs the directory  *)
+ProgDenied(d, f, k) == k = "inplace" /\ ~Privileged /\ ~OwnerWritable(d[f].m)
+StepProg(d, f, o, k) == IF k = "inplace" THEN [d EXCEPT ![f].c = Append(@, Tag(f, o))]
+                        ELSE IF k = "replace" THEN [d EXCEPT ![f] = [c |-> Append(@.c, Tag(f, o)), m |-> CreateMode, i |-> 1 - @.i]]
+                        ELSE d
 
 (* ------------------------------------------------------------------------------------------------------ *)
 (* 4. I-layer: the state machine                                                                           *)
@@ -135,11 +154,11 @@ Bounded == MaxSteps > 0
 CanStep == pc = "idle" /\ status = "none" /\ (Bounded => nsteps < MaxSteps)
 Tick == IF Bounded THEN nsteps + 1 ELSE nsteps
 
-Init == /\ fs = Empty /\ pc = "idle" /\ queue = <<>> /\ opts = NoOpts /\ pre = Empty
+Init == /\ fs = Empty /\ pc = "idle" /\ queue = <<>> /\ chain = <<>> /\ opts = NoOpts /\ pre = Empty
         /\ status = "none" /\ hist = <<>> /\ nsteps = 0
 
 End(o, st, d) ==
-    /\ pc' = "idle" /\ status' = st /\ queue' = <<>> /\ fs' = d
+    /\ pc' = "idle" /\ status' = st /\ queue' = <<>> /\ chain' = <<>> /\ fs' = d
     /\ hist' = Log([a |-> "run", o |-> o, st |-> st, fs |-> FsJ(d)])
     /\ nsteps' = Tick
 
@@ -149,7 +168,7 @@ StartRun(o) ==
     /\ IF Order(o) = <<>>
        THEN End(o, "ok", fs)
        ELSE /\ pc' = "ovw" /\ queue' = Order(o) /\ status' = "none"
-            /\ UNCHANGED <<fs, hist, nsteps>>
+            /\ UNCHANGED <<fs, chain, hist, nsteps>>
 
 HandleOverwrite ==
     /\ pc = "ovw"
@@ -157,7 +176,7 @@ HandleOverwrite ==
        IF OvwRefuses(fs, f, opts)
        THEN End(opts, "error", fs) /\ UNCHANGED <<opts, pre>>
        ELSE /\ fs' = StepOvw(fs, f, opts) /\ pc' = "open"
-            /\ UNCHANGED <<queue, opts, pre, status, hist, nsteps>>
+            /\ UNCHANGED <<queue, chain, opts, pre, status, hist, nsteps>>
 
 OpenTruncate ==
     /\ pc = "open"
@@ -165,43 +184,57 @@ OpenTruncate ==
        IF OpenDenied(fs, f)
        THEN End(opts, "error", fs) /\ UNCHANGED <<opts, pre>>
        ELSE /\ fs' = StepOpen(fs, f) /\ pc' = "write"
-            /\ UNCHANGED <<queue, opts, pre, status, hist, nsteps>>
+            /\ UNCHANGED <<queue, chain, opts, pre, status, hist, nsteps>>
 
 Write ==
     /\ pc = "write"
     /\ LET f == Head(queue) IN
        /\ fs' = StepWrite(fs, f, opts)
-       /\ pc' = IF HasCopyMode(f, opts) THEN "copymode" ELSE "setmode"
+       /\ pc' = IF HasCopyMode(f, opts) THEN "copymode" ELSE "chain"
+    /\ chain' = FileChain(opts)
     /\ UNCHANGED <<queue, opts, pre, status, hist, nsteps>>
 
 CopyMode ==
     /\ pc = "copymode"
-    /\ fs' = StepCopyMode(fs, Head(queue)) /\ pc' = "setmode"
-    /\ UNCHANGED <<queue, opts, pre, status, hist, nsteps>>
+    /\ fs' = StepCopyMode(fs, Head(queue)) /\ pc' = "chain"
+    /\ UNCHANGED <<queue, chain, opts, pre, status, hist, nsteps>>
+
+(* the chain of file post-processors, in list order                                                          *)
+RunProgram ==
+    /\ pc = "chain" /\ chain # <<>> /\ Head(chain) # "setmode"
+    /\ LET f == Head(queue) k == Head(chain) IN
+       IF ProgDenied(fs, f, k)
+       THEN End(opts, "error", fs) /\ UNCHANGED <<opts, pre>>        \* the program fails, check=True: the run ends
+       ELSE /\ fs' = StepProg(fs, f, opts, k) /\ chain' = Tail(chain)
+            /\ UNCHANGED <<pc, queue, opts, pre, status, hist, nsteps>>
 
 SetMode ==
-    /\ pc = "setmode"
-    /\ LET f == Head(queue) d == StepSetMode(fs, f, opts) IN
-       IF Tail(queue) = <<>>
-       THEN End(opts, "ok", d) /\ UNCHANGED <<opts, pre>>
-       ELSE /\ fs' = d /\ queue' = Tail(queue) /\ pc' = "ovw"
-            /\ UNCHANGED <<opts, pre, status, hist, nsteps>>
+    /\ pc = "chain" /\ chain # <<>> /\ Head(chain) = "setmode"
+    /\ fs' = StepSetMode(fs, Head(queue), opts) /\ chain' = Tail(chain)
+    /\ UNCHANGED <<pc, queue, opts, pre, status, hist, nsteps>>
+
+FileDone ==
+    /\ pc = "chain" /\ chain = <<>>
+    /\ IF Tail(queue) = <<>>
+       THEN End(opts, "ok", fs) /\ UNCHANGED <<opts, pre>>
+       ELSE /\ queue' = Tail(queue) /\ pc' = "ovw"
+            /\ UNCHANGED <<fs, chain, opts, pre, status, hist, nsteps>>
 
 (* the end of a run is an observation point (RunEndOK is evaluated there); afterwards the run's bookkeeping is    *)
 (* forgotten so that equal directories are equal states                                                    *)
 Settle ==
     /\ pc = "idle" /\ status # "none"
     /\ pre' = Empty /\ opts' = NoOpts /\ status' = "none"
-    /\ UNCHANGED <<fs, pc, queue, hist, nsteps>>
+    /\ UNCHANGED <<fs, pc, queue, chain, hist, nsteps>>
 
 EnvDone(rec, d) ==
     /\ fs' = d
     /\ hist' = Log(rec @@ [fs |-> FsJ(d)]) /\ nsteps' = Tick
-    /\ UNCHANGED <<pc, queue, pre, opts, status>>
+    /\ UNCHANGED <<pc, queue, chain, pre, opts, status>>
 
 Foreign(p, k, m) ==
     /\ CanStep
-    /\ EnvDone([a |-> "foreign", p |-> p, k |-> k, m |-> m], Put(fs, p, [c |-> ForeignContent(k), m |-> m]))
+    /\ EnvDone([a |-> "foreign", p |-> p, k |-> k, m |-> m], Put(fs, p, [c |-> ForeignContent(k), m |-> m, i |-> 0]))
 
 Chmod(p, m) ==
     /\ CanStep /\ p \in DOMAIN fs /\ fs[p].m # m
@@ -217,7 +250,7 @@ Next ==
           \/ EnvOn /\ \E p \in AllPaths, k \in {"long", "short"}, m \in Modes : Foreign(p, k, m)
           \/ EnvOn /\ \E p \in AllPaths, m \in Modes : Chmod(p, m)
           \/ EnvOn /\ \E p \in AllPaths : Remove(p)
-    \/ HandleOverwrite \/ OpenTruncate \/ Write \/ CopyMode \/ SetMode \/ Settle
+    \/ HandleOverwrite \/ OpenTruncate \/ Write \/ CopyMode \/ RunProgram \/ SetMode \/ FileDone \/ Settle
 
 Spec == Init /\ [][Next]_vars
 
@@ -235,10 +268,12 @@ NoTornFile == pc = "idle" => \A p \in DOMAIN fs : fs[p].c # <<>> /\ Homogeneous(
 IdleModes == pc = "idle" => \A p \in DOMAIN fs : fs[p].m \in Modes                          \* no u+w left behind
 NeverDenied == (pc = "open" /\ ~Privileged) => ~OpenDenied(fs, Head(queue))                 \* the gate makes EACCES impossible
 RefusedOnlyOnConflict == (RunEnded /\ status = "error") => (opts.no /\ Conflict(pre, Fresh(opts)))
+(* the mode clause on its own: whatever the history and the post-processor options                            *)
+RequestedMode == (RunEnded /\ status = "ok") => \A f \in Gen(opts) : f \in DOMAIN fs /\ fs[f].m = opts.fm
 UntouchedOthers == RunEnded => \A p \in DOMAIN pre \ Gen(opts) : p \in DOMAIN fs /\ fs[p] = pre[p]
 
 TypeOK ==
-    /\ pc \in {"idle", "ovw", "open", "write", "copymode", "setmode"}
+    /\ pc \in {"idle", "ovw", "open", "write", "copymode", "chain"}
     /\ status \in {"none", "ok", "error"}
     /\ DOMAIN fs \subseteq AllPaths
     /\ (pc # "idle" => queue # <<>> /\ opts \in AllOpts)
